@@ -70,7 +70,14 @@ func safePump(p shared.TokenPump) (err error, panicked bool) {
 }
 
 // wfault <fmt> <line> <indent> <toks> <k> <mode><stop>
+// faultyStringWriter: the same faulty writer, but it also offers WriteString, as bytes.Buffer, bufio.Writer and os.File do
+type faultyStringWriter struct{ faultyWriter }
+
+func (w *faultyStringWriter) WriteString(s string) (int, error) { return w.Write([]byte(s)) }
+
 func opWFault(p []string) string {
+	stringWriter := strings.HasSuffix(p[0], "w")
+	p = append([]string{strings.TrimSuffix(p[0], "w")}, p[1:]...)
 	ts, err := parseToks(p[3])
 	if err != nil {
 		return "bad-op"
@@ -90,7 +97,11 @@ func opWFault(p []string) string {
 	fl := runSteps(mk(fw), ts)
 	// the same through the real pump
 	fw2 := &faultyWriter{k: k, mode: mode, stop: stop}
-	perr, pp := safePump(shared.TokenPump{TokenSource: &sliceSource{ts: ts}, TokenSink: mk(fw2)})
+	var sinkW io.Writer = fw2
+	if stringWriter {
+		sinkW = &faultyStringWriter{faultyWriter{k: k, mode: mode, stop: stop}}
+	}
+	perr, pp := safePump(shared.TokenPump{TokenSource: &sliceSource{ts: ts}, TokenSink: mk(sinkW)})
 	pump := "nil"
 	if pp {
 		pump = "panic"
